@@ -9,20 +9,51 @@ rt.quiet_logging()
 rt.install_shims()
 
 META = dict(
-    engine='E2 AST->CFG->z3 bit-vector BMC (counters pulled/started/delivered in the encoded state) + E1 CrossHair for PrefetchDataset.__init__',
+    engine='E2 AST->CFG->z3 bit-vector BMC (counters pulled/started/delivered in the encoded state) + one-step induction over the same transition system (potential functions synthesised by z3/LIA, inductiveness decided by z3/BV) + E1 CrossHair for PrefetchDataset.__init__',
     functions=['lazy_dataset.parallel_utils.single_thread_prefetch', 'lazy_dataset.parallel_utils.lazy_parallel_map (every back end)', 'lazy_dataset.core.PrefetchDataset.__init__'],
     stubs=_e2.STUBS,
     assumptions=_e2.ASSUMPTIONS + ['consumer pauses are schedules in which the consumer is never chosen while it sits at the yield'],
     bounds=dict(quick='n<=2 (single thread, pools) with buffer<=2, workers<=2, thread pool also at exactly n=3, buffer=2, workers=2, and every prefix of <= 44 steps of the thread pool with n<=5, buffer=2, workers=2: pulled-delivered <= B+2 and started-delivered <= B in every state of every schedule; '
-                      'plus single thread n<=6, buffer 1..3: every execution prefix of <= 34 steps',
-                thorough='single thread n<=3 and n<=4, buffer<=3; pools n<=3, buffer<=2, workers<=2; thread pool n<=3, buffer<=3, workers<=3; prefixes: single thread n<=8 buffer 1..4 K=44, thread pool n<=5 buffer 1..3 K=44'),
-    outside=['dataset lengths above the bounds (complete executions: n<=2/3; execution prefixes of <= K steps: n<=6/8 with buffer 1..3/4); no induction over n is claimed'],
+                      'plus single thread n<=6, buffer 1..3: every execution prefix of <= 34 steps; single thread by induction: every n<=100, buffer 1..4, schedules of any length',
+                thorough='single thread n<=3 and n<=4, buffer<=3; pools n<=3, buffer<=2, workers<=2; thread pool n<=3, buffer<=3, workers<=3; prefixes: single thread n<=8 buffer 1..4 K=44, thread pool n<=5 buffer 1..3 K=44; single thread by induction: every n<=100, buffer 1..6, schedules of any length'),
+    outside=['lazy_parallel_map: dataset lengths above the bounds (complete executions: n<=2/3; execution prefixes of <= K steps: n<=5); its task-slot state is sized by n, no induction is attempted', 'single_thread_prefetch: n > 100 (8-bit counters), buffer sizes above 4/6 (explicit queue slots); the induction claim is made only when its queries close, otherwise the claim is the bounded one'],
 )
 
 
 def extra(tier, seed, ctx):
-    return _e2.run('C07', tier, seed, ctx, lambda g: ['readahead_pulled'] + (['readahead_started'] if g['system'] == 'lpm' else []),
-                   extra_groups=_e2.prefix_plan(tier))
+    out = _e2.run('C07', tier, seed, ctx, lambda g: ['readahead_pulled'] + (['readahead_started'] if g['system'] == 'lpm' else []),
+                  extra_groups=_e2.prefix_plan(tier))
+    induction(tier, ctx, out)
+    return out
+
+
+def induction(tier, ctx, out):
+    """single_thread_prefetch, every dataset length: one-step induction over the generated transition system (engine/bmc/induct.py).
+    Closed -> the read-ahead bound holds for every n <= 100 and schedules of any length; not closed / unsupported -> nothing is claimed
+    beyond the BMC bounds (inconclusive, never a violation: violations come from the BMC queries, which are replayed on real threads)."""
+    from engine.bmc import induct
+    Bmax = 4 if tier == 'quick' else 6
+    r = induct.prove_readahead(Bmax, timeout=170 if tier == 'quick' else 900)
+    twin = induct.prove_readahead(Bmax, timeout=170 if tier == 'quick' else 900, slack=1)      # the same machinery must NOT close for B + 1 while B + 2 is reachable
+    nq = len(r['queries']) + len(twin['queries'])
+    out['queries'] += nq
+    out['solver_time_s'] = round(out['solver_time_s'] + sum(q['secs'] for q in r['queries'] + twin['queries']), 1)
+    tight = [b for b in out['coverage'].get('e2_bounds', []) if b['system'] == 'single_thread_prefetch' and 'prefix' in b['claim']]
+    info = dict(result=r['result'], detail=r['detail'], claim=r['claim'], bounds=r['bounds'], queries=r['queries'], invariant=r.get('invariant'),
+                phase_variable=r.get('phase_variable'), secs=r['secs'],
+                tightness_twin=dict(claim=twin['claim'], result=twin['result'], note='informational: with the bound B+1 (which the prefix groups show to be '
+                                    'exceeded: readahead_tight reaches B+2) the induction must not close; a twin that closes while readahead_tight is sat is a harness error'))
+    out['coverage']['e2_induction'] = info
+    ctx['log'](f"[C07] induction single_thread_prefetch: {r['result']} ({r['detail']}; {len(r['queries'])} queries, {r['secs']} s); twin with B+1: {twin['result']}")
+    if r['result'] == 'closed':
+        out['discharged'] += sum(1 for q in r['queries'] if q.get('expected') == q['result'])
+        out['samples'].insert(0, dict(query='induction single_thread_prefetch: ' + r['claim'], verdict='closed (prologue, step, safety queries unsat; non-vacuity queries sat)',
+                                      solver_s=r['secs']))
+        if twin['result'] == 'closed' and tight:
+            out['harness_errors'].append('induction closes for the bound B+1 although the step-bounded groups reach B+2: the induction machinery is unsound')
+    else:
+        out['inconclusive'].append(f"induction over the dataset length for single_thread_prefetch did not close ({r['result']}: {r['detail']}); "
+                                   'the read-ahead claim stays bounded by the BMC groups')
 
 
 custom_replay = _e2.custom_replay
